@@ -49,7 +49,18 @@ node_l = lambda spec: H.lam_body(spec)
 
 NODE_SRC = '''\
 def node_%(n)s(spec):
+  def local(tag):
+    # a local function: converted together with its parent, not user requested by itself
+    H.local_probe(spec, tag)
+    return tag
+
   H.enter(spec)
+  if spec['local'] == 'direct':
+    local('direct')
+  elif spec['local'] == 'dnc':
+    H.hof_disabled(local, spec)
+  elif spec['local'] == 'escape':
+    H.keep_local(local, spec)
   i = 0
   for link in spec['children']:
     if spec['raise_at'] == i:
@@ -107,7 +118,7 @@ def init_zygote(lane):
   mod = common.load_module('simuser_c16', path)
   Z['mod'] = mod
   Z['path'] = path
-  for name in ('enter', 'mid', 'leave', 'pre', 'post', 'caught', 'pick', 'call_child', 'lam_body', 'ours_now', 'gen_step'):
+  for name in ('enter', 'mid', 'leave', 'pre', 'post', 'caught', 'pick', 'call_child', 'lam_body', 'ours_now', 'gen_step', 'local_probe', 'hof_disabled', 'keep_local'):
     setattr(getattr(Harness, name), 'autograph_info__', None)
   # discover injection points with a throw-away conversion in a pristine world
   feats = tuple(getattr(malt.experimental.Feature, f) for f in FEATSETS[-1])
@@ -155,12 +166,18 @@ def _gen_link(rng, prefix, budget, depth, max_depth, root, n_shared):
     link['by_default'] = rng.random() < 0.6
     link['ur'] = rng.random() < 0.5
   link['spec'] = _gen_node(rng, prefix, budget, depth + 1, max_depth, n_shared)
+  if kind == 'dnc' and rng.random() < 0.35:
+    # do_not_convert applied to something malt itself produced (an artifact)
+    link['inner'] = rng.choice(['convert', 'convert_nour', 'to_graph'])
+    link['rec'] = rng.random() < 0.7
+    link['feats'] = rng.randrange(len(FEATSETS))
   if kind == 'dnc_gen':
     # a generator function under do_not_convert, stepped `steps` times and then
     # closed or exhausted; the spec's children run while it is suspended
     link['steps'] = rng.choice([1, 2])
     link['finish'] = rng.choice(['close', 'exhaust', 'abandon'])
     link['spec']['raise_at'] = None
+    link['spec']['local'] = None
   return link
 
 
@@ -179,6 +196,7 @@ def _gen_node(rng, prefix, budget, depth, max_depth, n_shared):
   if rng.random() < 0.3:
     raise_at = rng.randrange(len(children) + 1)
   return {'id': nid, 'children': children, 'raise_at': raise_at,
+          'local': rng.choice([None, None, None, 'direct', 'dnc', 'dnc', 'escape']),
           'raise_kind': (rng.choice([1, 1, 2]) if (raise_at is not None and rng.random() < 0.4) else 0)}
 
 
@@ -207,6 +225,7 @@ def make_plan(seed, index, tier, sub):
     threads.append({'roots': roots})
   plan = {
       'prop': 'C16', 'threads': threads, 'shared': shared,
+      'ctx_copy': rng.random() < 0.25,
       'warm': rng.random() < 0.4,
       'opcodes': rng.random() < 0.15,
       'strategy': _gen_strategy(rng, nthreads),
@@ -261,6 +280,7 @@ class ThreadState(object):
     self.pre = {}           # id(link) -> (ctx object, expect depth, pending depth)
     self.trace = []         # compact history for samples
     self.captured = []      # context object current at the entry of each open node (parallel to expect)
+    self.escaped = None     # (local function that escaped from a node, its spec)
 
 
 class Harness(object):
@@ -398,6 +418,36 @@ class Harness(object):
       seen += 1
     return False
 
+  def local_probe(self, spec, tag):
+    """Status seen inside a local function of a node.  Called directly it sees
+    what its parent sees; run inside a disabled region it reports disabled
+    (it is not user requested by itself)."""
+    st = self._st()
+    c = self.cur_ctx(st)
+    self.stats['local_probes'] = self.stats.get('local_probes', 0) + 1
+    exp = st.expect[-1] if st.expect else None
+    if tag in ('dnc', 'escaped'):
+      exp = 'DISABLED'
+    if exp is None or isinstance(exp, tuple):
+      return
+    got = _status_name(c)
+    if got != exp:
+      self.viol('S2' if exp != 'ENABLED' else 'S3',
+                'local function of node %s (%s): status %s, expected %s' % (spec['id'], tag, got, exp),
+                sig='local-%s-status-%s-for-%s' % (tag, got, exp))
+
+  def hof_disabled(self, cb, spec):
+    """A do_not_convert higher-order helper that calls back into a local
+    function of converted code."""
+    st = self._st()
+    c0 = self.cur_ctx(st)
+    self.malt.experimental.do_not_convert(lambda: cb('dnc'))()
+    self._same_ctx(st, c0, {'spec': spec}, 'a callback run inside do_not_convert')
+
+  def keep_local(self, cb, spec):
+    """The local function escapes and is called later under do_not_convert."""
+    self._st().escaped = (cb, spec)
+
   def ours_now(self):
     return self.ours(sys.exc_info()[1])
 
@@ -478,6 +528,24 @@ class Harness(object):
       self.stats['caught'] += 1
       return
     self._restore(st, link, 'return')
+    esc = getattr(st, 'escaped', None)
+    if esc is not None and spec is None:
+      # a closure that escaped from converted code, called under do_not_convert
+      st.escaped = None
+      cb, sp = esc
+      c0 = self.cur_ctx(st)
+      saved, st.expect = st.expect, ['DISABLED']
+      try:
+        self.malt.experimental.do_not_convert(cb)('escaped')
+      except BaseException as e:   # noqa: BLE001
+        if isinstance(e, sched.SimAbort):
+          raise
+        if not self.ours(e):
+          self.viol('S5', 'foreign exception %s from an escaped local function: %s' % (type(e).__name__, str(e)[:100]),
+                    sig='foreign-%s' % type(e).__name__)
+      finally:
+        st.expect = saved
+      self._same_ctx(st, c0, {'spec': sp}, 'an escaped local function run under do_not_convert')
 
   def _invoke(self, st, link):
     malt, ag_ctx, api = self.malt, self.ag_ctx, self.api
@@ -491,7 +559,19 @@ class Harness(object):
       return malt.convert(recursive=link['rec'], optional_features=feats,
                           user_requested=link['ur'])(fn)(spec)
     if kind == 'dnc':
-      return malt.experimental.do_not_convert(fn)(spec)
+      inner = link.get('inner')
+      target = fn
+      if inner in ('convert', 'convert_nour'):
+        target = malt.convert(recursive=link['rec'], optional_features=_feats(malt, link['feats']),
+                              user_requested=(inner == 'convert'))(fn)
+      elif inner == 'to_graph':
+        try:
+          target = malt.to_graph(fn, recursive=link['rec'],
+                                 experimental_optional_features=_feats(malt, link['feats']))
+        except Exception:   # noqa: BLE001
+          self.stats['to_graph_failed'] += 1
+          return None
+      return malt.experimental.do_not_convert(target)(spec)
     if kind == 'dnc_gen':
       return self._run_generator(st, link)
     if kind == 'unspec':
@@ -604,6 +684,10 @@ def expected_status(link, pexp, generated, H):
       return 'ENABLED'
     return None
   if kind == 'dnc':
+    # (also when the wrapped callable is a convert() wrapper: it respects the
+    # disabled context; a to_graph result explicitly re-enables for itself)
+    if link.get('inner') == 'to_graph':
+      return 'ENABLED' if generated else None
     return 'DISABLED'
   if kind == 'unspec':
     return 'UNSPECIFIED'
@@ -678,8 +762,23 @@ def execute(lane, plan, schedule, rdir, keep_log=False):
       return None
     return target
 
+  base_ctx = None
+  if plan.get('ctx_copy'):
+    # threads whose first use of malt happens under a copy of the Context of a
+    # thread that has used malt already (asyncio.to_thread, run_in_executor +
+    # copy_context().run): the status must stay per thread all the same
+    import contextvars
+    import malt as _m
+    _m.control_status_ctx()
+    base_ctx = contextvars.copy_context()
+
+  def under_copy(fn):
+    def run():
+      return base_ctx.copy().run(fn)
+    return run
   for tid, tplan in enumerate(plan['threads']):
-    sim.add_thread('t%d' % tid, make_target(tid, tplan))
+    tgt = make_target(tid, tplan)
+    sim.add_thread('t%d' % tid, under_copy(tgt) if base_ctx is not None else tgt)
 
   def on_lock(kind, lock, thread):
     if kind == 'blocked':
